@@ -74,13 +74,19 @@ def gen_branches(rng, n):
                 tgt = rng.choice(names)  # resolved (or self)
             elif rr < 0.5:
                 tgt = nm  # self reference
+            elif rr < 0.6:
+                used = [unhx(b["target"]) for b in out if b.get("target") and len(b["target"]) == 40]
+                tgt = rng.choice(used) if used else gen_name(rng)  # an alias target spelled like an object id in use
             elif rr < 0.8:
                 tgt = gen_name(rng)
             else:
                 tgt = bytes(rng.choice([0, 0x30, 0x31, 0x3A, 0x20, rng.randrange(256)]) for _ in range(rng.randrange(0, 301)))
             out.append({"name": hx(nm), "kind": "alias", "target": hx(tgt)})
         else:
-            out.append({"name": hx(nm), "kind": rng.choice(KINDS), "target": hx(bytes(rng.randrange(256) for _ in range(20)))})
+            # (one time in three an id already used by another branch, under whatever kind comes up)
+            used = [b["target"] for b in out if b.get("target") and len(b["target"]) == 40]
+            tg = rng.choice(used) if used and rng.random() < 0.33 else hx(bytes(rng.randrange(256) for _ in range(20)))
+            out.append({"name": hx(nm), "kind": rng.choice(KINDS), "target": tg})
     return out
 
 
